@@ -146,7 +146,7 @@ CLAIMED = {
              "claim follows by induction over the DAG because every valid operand interval is covered.",
         design="DESIGN.md §4 C03",
         note="Trusted: Kani 0.68/CBMC 6.11/CaDiCaL; libm contract stubs (functional, NaN-propagating, range, monotone where stated). "
-             "Outside: quadrant branches of Interval::sin/cos, non-degenerate tan, atan2 corner selection, rem_euclid; values between lattice points; aarch64; WGSL.",
+             "Also: Transformable for Interval (the box with a transform matrix applied contains the image of every point, exact-arithmetic lattice). Outside: quadrant branches of Interval::sin/cos, non-degenerate tan, atan2 corner selection, rem_euclid; values between lattice points; projective rows for boxes; aarch64; WGSL.",
         technique="bounded model checking of the compiled kernels and interpreter arms (Kani), symbolic execution of the x86-64 interval JIT code into SMT (z3)",
         engine="E-K",
     ),
